@@ -319,3 +319,12 @@ def b5_regex_order(ctx):
 
 
 RULES = [('B1', b1_table), ('B2', b2_width), ('B3', b3_convert), ('B4', b4_type_kept), ('B5', b5_regex_order)]
+
+
+def b6_unique_fields(ctx):
+    """B6 a pattern that names two fields alike loses one of the matched tokens (shared rule)"""
+    from ..common import unique_field_names
+    unique_field_names(ctx, 'B6', ('number_type_convert',), floor=1)
+
+
+RULES.append(('B6', b6_unique_fields))
